@@ -1133,6 +1133,8 @@ fn channels() -> Vec<Channel> {
             rust_fn: "psd_completion::psd_complete", lean: "(oracle only: agrees with clique blocks + PSD; Grone et al. assumed)" },
         Channel { name: "psd_complete.written", tol: Tol::Exact, run: run_psd_written, oracle: Some(oracle_psd_written), modelled: true,
             rust_fn: "psd_completion::psd_complete (positions written)", lean: "Chordal.psdCompleteChanged / Chordal.psdCompleteWritten / C18.completion_agrees" },
+        Channel { name: "psd_complete.data", tol: Tol::Exact, run: run_psd_complete, oracle: None, modelled: true,
+            rust_fn: "psd_completion::psd_complete (data; LAPACK/BLAS results replayed from the output)", lean: "Chordal.psdComplete / Chordal.psdComplete_agrees" },
         Channel { name: "e2e", tol: Tol::Exact, run: run_e2e, oracle: Some(oracle_e2e), modelled: false,
             rust_fn: "DefaultSolver::new + solve, decomposition on vs off", lean: "(oracle only)" },
         Channel { name: "batch", tol: Tol::Exact, run: run_batch, oracle: None, modelled: false, rust_fn: "(isolation wrapper)", lean: "" },
@@ -1510,10 +1512,25 @@ fn generate_psd_written(s: &mut Session, inputs: Vec<(usize, String)>) {
             }
         }
         s.count(if singular { "psd_complete.written:low-rank" } else { "psd_complete.written:definite" });
+        {
+            // a clique other than the root with an empty separator would send 0 x 0 blocks to LAPACK
+            let t = &pp[0].0;
+            let root = t.snode_post.get(t.n_cliques.wrapping_sub(1)).copied();
+            if (0..t.separators.len()).any(|c| Some(c) != root && t.snode_post.contains(&c) && t.separators[c].is_empty()) {
+                s.count("psd_complete.written:empty-separator-below-root");
+            }
+        }
         if inpat.iter().all(|&b| b) {
             s.count("psd_complete.written:nothing-to-complete");
         }
         s.submit(format!("{} {} d={} W={} valid=1", head, pats, d, ffs(&w)));
+        // the data-level model, with the results of the external LAPACK/BLAS step taken from the
+        // implementation's own output: placement, permutations and the symmetric write must agree
+        let tail = format!("n=1 m={} {} {} d={} W={}", d * (d + 1) / 2, fmt_cones("", &cones), pats, d, ffs(&w));
+        let out = s.run_impl(&format!("psd_complete {}", tail));
+        if let Some(wout) = out.strip_prefix("W=") {
+            s.submit(format!("psd_complete.data {} Wout={}", tail, wout));
+        }
 
         // damaged patterns: the panic sites of psd_complete
         if s.rng.bool(0.15) {
